@@ -220,58 +220,41 @@ structure SpecOut where
   exit : Nat
   fs : FS
 
-/-- **the specification of `rapidquilt push`** -/
+/-- what the push leaves behind once it is known which patches apply: the tree with the first `k`
+patches applied, reject files of the failing one, quilt backups, and `.pc/applied-patches` -/
+def finishSpec (cfg : Cfg) (fs : FS) (range : List Series.Entry) (p : Progress) : SpecOut :=
+  let exit := if p.k == range.length then 0 else 1
+  if cfg.dryRun then { exit, fs }
+  else
+    -- (several failing file patches for one file overwrite each other's reject file; the one
+    -- applied first is written last — known finding `dup-entry-rej-overwrite`)
+    match putRejects p.fs p.rejs.reverse with
+    | .error _ => { exit := 1, fs := p.fs }
+    | .ok fs1 =>
+      let doBackups := cfg.backup == .always || (cfg.backup == .onfail && p.k != range.length)
+      let window := match cfg.backupCount with
+        | none => p.backups
+        | some n => p.backups.drop (p.k - n)
+      match (if doBackups then putBackups fs1 window else .ok fs1) with
+      | .error _ => { exit := 1, fs := fs1 }
+      | .ok fs2 =>
+        -- .pc/applied-patches gains exactly the applied names, in order
+        match fs2.createDirAll pcDir with
+        | .error _ => { exit := 1, fs := fs2 }
+        | .ok fs3 =>
+          match fs3.appendFile appliedKey ((range.take p.k).map (fun e => e.name ++ [10])).flatten with
+          | .error _ => { exit := 1, fs := fs3 }
+          | .ok fs4 => { exit, fs := fs4 }
+
+/-- **the specification of `rapidquilt push`**: refuse inconsistent state or arguments (`plan`, see
+C17), otherwise apply the range patch by patch on the tree -/
 def pushSpec (cfg : Cfg) (fs : FS) : SpecOut :=
-  let refuse : SpecOut := { exit := 1, fs }
-  match fs.readFile seriesKey with
-  | .error _ => refuse
-  | .ok (sbytes, _) =>
-    match Series.readSeries sbytes with
-    | .error _ => refuse
-    | .ok series =>
-      -- the applied patches must be a prefix of the series
-      let applied : List Series.Entry := match fs.readFile appliedKey with
-        | .error _ => []
-        | .ok (abytes, _) => (match Series.readSeries abytes with | .ok a => a | .error _ => [])
-      if namesMismatch series applied || applied.length > series.length then refuse else
-      let first := applied.length
-      let last? : Option Nat := match cfg.goal with
-        | .all => some series.length
-        | .count n => some (min (first + n) series.length)
-        | .upTo name =>
-          match series.findIdx? (fun e => components e.name == components name) with
-          | some i => if i < first then none else some (i + 1)
-          | none => none
-      match last? with
-      | none => refuse
-      | some last =>
-        if first == series.length then { exit := 0, fs }
-        else
-          let range := (series.drop first).take (last - first)
-          match applyRangeTree cfg fs range { fs, k := 0, rejs := [], failed := false, backups := [] } with
-          | .error _ => refuse
-          | .ok p =>
-            let exit := if p.k == range.length then 0 else 1
-            if cfg.dryRun then { exit, fs }
-            else
-              -- (several failing file patches for one file overwrite each other's reject file; the one
-              -- applied first is written last — known finding `dup-entry-rej-overwrite`)
-              match putRejects p.fs p.rejs.reverse with
-              | .error _ => { exit := 1, fs := p.fs }
-              | .ok fs1 =>
-                let doBackups := cfg.backup == .always || (cfg.backup == .onfail && p.k != range.length)
-                let window := match cfg.backupCount with
-                  | none => p.backups
-                  | some n => p.backups.drop (p.k - n)
-                match (if doBackups then putBackups fs1 window else .ok fs1) with
-                | .error _ => { exit := 1, fs := fs1 }
-                | .ok fs2 =>
-                  -- .pc/applied-patches gains exactly the applied names, in order
-                  match fs2.createDirAll pcDir with
-                  | .error _ => { exit := 1, fs := fs2 }
-                  | .ok fs3 =>
-                    match fs3.appendFile appliedKey ((range.take p.k).map (fun e => e.name ++ [10])).flatten with
-                    | .error _ => { exit := 1, fs := fs3 }
-                    | .ok fs4 => { exit, fs := fs4 }
+  match plan cfg fs with
+  | .refuse => { exit := 1, fs }
+  | .nothingToDo => { exit := 0, fs }
+  | .apply range =>
+    match applyRangeTree cfg fs range { fs, k := 0, rejs := [], failed := false, backups := [] } with
+    | .error _ => { exit := 1, fs }
+    | .ok p => finishSpec cfg fs range p
 
 end RQ.Spec
